@@ -84,9 +84,15 @@ def _compute(tier, seed):
         if e.res.violated != 'StateAssignmentOK':
             raise MachineryError('mutant variant refuted on %s' % e.res.violated)
     from . import replay_sbmlorder
-    results = pmap(replay_sbmlorder.replay_case, [(rec, seed) for rec in r.records])
+    recs = list(r.records)
+    if tier == 'quick':
+        # three selected outputs (three states, one constant, nothing fixed)
+        seen = {json.dumps(x, sort_keys=True) for x in recs}
+        recs += [x for x in tlc.run('SBMLOrder', 'SBMLOrder_quick3.cfg').records
+                 if len(x['outs']) == 3 and json.dumps(x, sort_keys=True) not in seen]
+    results = pmap(replay_sbmlorder.replay_case, [(rec, seed) for rec in recs])
     lib_fails, nlib = library_cases(seed)
-    return dict(run=r.summary(), records=r.records, results=results, lib=(lib_fails, nlib))
+    return dict(run=r.summary(), records=recs, results=results, lib=(lib_fails, nlib))
 
 
 def run(tier, seed):
